@@ -245,6 +245,9 @@ pub const F64_VALUES: [u64; 16] = [
     0x4110_0000_0000_0001,
 ];
 
+/// integer words: zero, small, around the calendar-year conventions (1900, 2100, 3800), a high byte of noise, limits
+pub const INT_WORDS: [i32; 12] = [0, 1, -1, 1899, 1900, 2100, 3799, 3801, 0x1000, 0x7fff, -0x8000, 0x7fff_ffff];
+
 #[derive(Clone, Debug, PartialEq)]
 pub enum Fault {
     /// set the 16-bit length field (payload bytes stay where they are)
@@ -262,6 +265,9 @@ pub enum Fault {
     Replace(usize),
     Insert(usize),
     F64(usize, usize),
+    /// the 16-bit word `slot` of a two-byte-integer record / the 32-bit word `slot` of a four-byte-integer record
+    /// replaced by the i-th value of `INT_WORDS`
+    Int(usize, usize),
     /// the payload of a string record replaced by the i-th byte string of `STR_PAYLOADS` (mostly not valid UTF-8)
     Str(usize),
 }
@@ -330,6 +336,12 @@ pub fn fault_table() -> &'static Vec<Fault> {
         }
         for i in 0..str_payloads().len() {
             v.push(Fault::Str(i));
+        }
+        // the first word of an integer record, and words 6 and 11 (the access-time year and the last date word)
+        for slot in [0usize, 6, 11] {
+            for val in 0..INT_WORDS.len() {
+                v.push(Fault::Int(slot, val));
+            }
         }
         v
     })
@@ -466,6 +478,24 @@ fn fault_patch(b: &Base, pos: usize, f: &Fault) -> Option<(Vec<u8>, usize)> {
                 return None;
             }
             (wire(&Rec::new(r.rtype, r.dtype, pl.clone())), 1)
+        }
+        Fault::Int(slot, val) => {
+            let width = if r.dtype == dt::I16 { 2 } else if r.dtype == dt::I32 { 4 } else { return None };
+            if raw.len() < 4 + width * (slot + 1) {
+                return None;
+            }
+            let x = INT_WORDS[*val];
+            if width == 2 && (x > 0x7fff || x < -0x8000) {
+                return None;
+            }
+            let mut v = raw.to_vec();
+            for k in 0..width {
+                v[4 + width * slot + k] = ((x as u32) >> (8 * (width - 1 - k))) as u8;
+            }
+            if v == raw {
+                return None;
+            }
+            (v, 1)
         }
         Fault::F64(slot, val) => {
             if r.dtype != dt::F64 || raw.len() < 4 + 8 * (slot + 1) {
@@ -1196,7 +1226,7 @@ impl Driver for C10 {
         let nb = generated_bases().len();
         Describe {
             rule: format!(
-                "base streams: {nb} reference-encoder streams (empty library, empty structure, each element kind minimal and with all optional records, strans variants, property list, mixed strings, two multi-element structures, long coordinate lists, a 24-structure library) + the {} tracked repository .gds files. [T] every byte prefix of bases with <= 64 records (incl. length 0 and the full stream), record boundary +-0..3 bytes of the larger ones. [F] at {} record position(s) each of {} single-record faults: length field := 0,1,2,3,odd,len-2,len+2,0xFFFE,0xFFFF; payload emptied; record type := each of 0x00..0x3b and 0x3c,0x3d,0x40,0x7f,0x80,0xfe,0xff; data type := 0..7,255; record deleted / duplicated / swapped with successor; a whole element of each of the 7 kinds spliced in; record replaced by / preceded by each record of the minimal typed alphabet; the payload of each string record := each of 12 byte strings that are mostly not valid UTF-8 (cut-short sequences with / without NUL padding, stray continuation bytes, overlong and surrogate encodings, Latin-1, 30 000 x 0xFF); each 8-byte real := {{0, 1 (smallest unnormalised), 0x80..0, 0x7f..f, 0xff..f, smallest normalised, largest unnormalised at exponent 0, a negative unnormalised, three values of the top exponent band, the second-lowest hexade, two unnormalised values at a middle exponent, a 56-bit mantissa, 1 + 2^-52}}. {} [S] after each of {} parser contexts (library header x5, structure x4, each element kind after its start record and after XY, after STRANS/MAG, after PROPATTR/PROPVALUE/ENDEL, after ENDLIB) every sequence of 1..2 records over the full typed alphabet ({} records: each defined record type with minimal valid payload, zero-length variant, wrong-size variant, the ten unreleased types, XY with 3/5 points){}, each once followed by end-of-input and once by the context's natural completion. [L] linear-time evidence: for the families many-tiny-structs, many-elements, maximal-xy-records (32 KiB each), many-properties, maximal-strings (32 KiB each), error-at-the-very-end at {} KiB the stand-alone reader (`l21mc gdsread`) runs under `valgrind --tool=cachegrind --cache-sim=no`; the deterministic instruction counts must satisfy I(4N)-I(2N) <= 3 x (I(2N)-I(N)) (linear => 2, quadratic => 4; differences below 10 % of I(N) count as noise); the counts are echoed under alphabet_use as instructions:<family>:<size>. [HL] all 65 536 values of the length field at 3 record positions; [HT] all 256 x 256 (record type, data type) pairs at 2 record positions. A state is one byte stream (hashed); non-trivial = differs from its unfaulted base.",
+                "base streams: {nb} reference-encoder streams (empty library, empty structure, each element kind minimal and with all optional records, strans variants, property list, mixed strings, two multi-element structures, long coordinate lists, a 24-structure library) + the {} tracked repository .gds files. [T] every byte prefix of bases with <= 64 records (incl. length 0 and the full stream), record boundary +-0..3 bytes of the larger ones. [F] at {} record position(s) each of {} single-record faults: length field := 0,1,2,3,odd,len-2,len+2,0xFFFE,0xFFFF; payload emptied; record type := each of 0x00..0x3b and 0x3c,0x3d,0x40,0x7f,0x80,0xfe,0xff; data type := 0..7,255; record deleted / duplicated / swapped with successor; a whole element of each of the 7 kinds spliced in; record replaced by / preceded by each record of the minimal typed alphabet; the payload of each string record := each of 12 byte strings that are mostly not valid UTF-8 (cut-short sequences with / without NUL padding, stray continuation bytes, overlong and surrogate encodings, Latin-1, 30 000 x 0xFF); word 0 / 6 / 11 of each integer record := {{0, +-1, 1899, 1900, 2100, 3799, 3801, 0x1000, i16 limits, i32 max}}; each 8-byte real := {{0, 1 (smallest unnormalised), 0x80..0, 0x7f..f, 0xff..f, smallest normalised, largest unnormalised at exponent 0, a negative unnormalised, three values of the top exponent band, the second-lowest hexade, two unnormalised values at a middle exponent, a 56-bit mantissa, 1 + 2^-52}}. {} [S] after each of {} parser contexts (library header x5, structure x4, each element kind after its start record and after XY, after STRANS/MAG, after PROPATTR/PROPVALUE/ENDEL, after ENDLIB) every sequence of 1..2 records over the full typed alphabet ({} records: each defined record type with minimal valid payload, zero-length variant, wrong-size variant, the ten unreleased types, XY with 3/5 points){}, each once followed by end-of-input and once by the context's natural completion. [L] linear-time evidence: for the families many-tiny-structs, many-elements, maximal-xy-records (32 KiB each), many-properties, maximal-strings (32 KiB each), error-at-the-very-end at {} KiB the stand-alone reader (`l21mc gdsread`) runs under `valgrind --tool=cachegrind --cache-sim=no`; the deterministic instruction counts must satisfy I(4N)-I(2N) <= 3 x (I(2N)-I(N)) (linear => 2, quadratic => 4; differences below 10 % of I(N) count as noise); the counts are echoed under alphabet_use as instructions:<family>:<size>. [HL] all 65 536 values of the length field at 3 record positions; [HT] all 256 x 256 (record type, data type) pairs at 2 record positions. A state is one byte stream (hashed); non-trivial = differs from its unfaulted base.",
                 REPO_FILES.len(),
                 t.pick("every (bases <= 64 records) / first 24, last 12 and every 37th (larger bases)", "every"),
                 fault_table().len(),
